@@ -61,8 +61,8 @@ def anyPending (p : Pool) : Bool := (List.range p.regs).any p.pend
 /-- `set(index)` under the mutex: `if sp.pool[index] { sp.pool[index] = false; if none pending { close(sp.ready) } }` -/
 def set (p : Pool) (i : Nat) : Pool :=
   if p.pend i then
-    let p' := { p with pend := upd p.pend i false }
-    if p'.anyPending then p' else { p' with readyClosed := true }
+    { p with pend := upd p.pend i false,
+             readyClosed := p.readyClosed || !({ p with pend := upd p.pend i false } : Pool).anyPending }
   else p
 
 /-- `Wait(ctx)` with a context that is never cancelled can return (`true`) exactly in these states -/
@@ -249,13 +249,13 @@ def final (t : Topo) (s : St) : Prop := ∀ i, i < t.n → s.pc i = .exited
 def finalB (t : Topo) (s : St) : Bool := (List.range t.n).all (fun i => s.pc i == .exited)
 
 /-- all actions that can possibly be enabled in `s` (used by the bounded search and by the progress check of the driver) -/
-def candidates (t : Topo) (s : St) : List Act :=
+def candidates (t : Topo) : List Act :=
   (List.range t.n).flatMap (fun i =>
     [Act.report i, .srDec i, .waitDone i, .beginCleanup i, .sleepDone i, .closeNext i, .wake i, .exit i]
     ++ (List.range (t.nl i)).flatMap (fun k => [Act.msgInc i k, .msgDone i k]))
   ++ [Act.latch]
 
-def enabled (t : Topo) (s : St) : List Act := (candidates t s).filter (fun a => (step t s a).isSome)
+def enabled (t : Topo) (s : St) : List Act := (candidates t).filter (fun a => (step t s a).isSome)
 
 /-- member count of members that still hold their initial increment -/
 def notReadyCount (t : Topo) (s : St) : Nat :=
